@@ -465,7 +465,10 @@ start:
 					if !ok {
 						return false
 					}
-					return k.Value == nil
+					// The zero value of a type parameter is a constant
+					// without a value, too, but it is only nil if every
+					// type in the type set can be.
+					return k.IsNil()
 				}
 				var target ir.Value
 				if isNil(binop.X) {
